@@ -359,6 +359,17 @@ def load(spec, root=None):
             lp.code[id(ic)] = inner["fid"]
             lp.code_objs[inner["fid"]] = ic
             lp.fobj[inner["fid"]] = None
+    # C03: module globals named like the function they wrap, bound to a callable with attribute hooks
+    if spec.get("proxied"):
+        from . import tripwires
+
+        for fid in spec["proxied"]:
+            f = lp.funcs[fid]
+            if f.get("cls") or f["kind"] not in ("func", "wrapped"):
+                continue
+            d = lp.modules[f["module"]].__dict__
+            d[f["name"]] = tripwires.CallProxy(d[f["name"]], 9000 + fid)
+            f["proxied"] = True
     return lp
 
 
